@@ -1,6 +1,7 @@
 package main
 
 import (
+	"go/ast"
 	"strings"
 )
 
@@ -103,6 +104,78 @@ func init() {
 			g.p("  %s(%q, [%s])\n", sep, m, strings.Join(rows, ", "))
 		}
 		g.p("]\n\n")
+		// the container endpoint: handleExecve and its synchronisation closure syncPid
+		ce := parseFile("container/container_exec_linux.go")
+		ckeep := func(x string) (string, bool) {
+			switch {
+			case strings.HasPrefix(x, "c.sendErrorReply(") || strings.HasPrefix(x, "return c.sendErrorReply("):
+				return "send error reply", true
+			case strings.HasPrefix(x, "c.sendReply(reply{}"):
+				return "send sync", true
+			case strings.HasPrefix(x, "c.sendReply(convertReply("):
+				return "send result", true
+			case strings.HasPrefix(x, "c.sendReply("):
+				return "send " + x, true
+			case x == "c.recvCmd()":
+				return "recv", true
+			case x == "r.Start()":
+				return "start", true
+			case strings.HasPrefix(x, "syncPid("):
+				return "syncPid", true
+			case strings.HasPrefix(x, "syscall.Kill(-1"):
+				return "kill all", true
+			case x == "c.waitPid<-" || x == "<-c.waitPidResult" || x == "c.waitAll<-" || x == "<-c.waitAllDone":
+				return x, true
+			case strings.HasPrefix(x, "return c.handleExecveStarted("):
+				return "started", true
+			}
+			return "", false
+		}
+		emitC := func(name string, body []ast.Stmt) {
+			seen := map[string]bool{}
+			g.p("def %s : List (List String) := [\n", name)
+			first := true
+			for _, p := range pathsOf(body) {
+				var q []string
+				for _, x := range p {
+					if y, ok := ckeep(x); ok {
+						q = append(q, y)
+					}
+				}
+				k := strings.Join(q, "|")
+				if seen[k] {
+					continue
+				}
+				seen[k] = true
+				sep := ","
+				if first {
+					sep = ""
+				}
+				g.p("  %s%s\n", sep, leanStrList(q))
+				first = false
+			}
+			g.p("]\n\n")
+		}
+		if fd := findFunc(ce, "containerServer", "handleExecve"); fd != nil {
+			emitC("containerExecvePaths", fd.Body.List)
+			found := false
+			ast.Inspect(fd, func(n ast.Node) bool {
+				as, ok := n.(*ast.AssignStmt)
+				if !ok || len(as.Lhs) != 1 || len(as.Rhs) != 1 || exprStr(as.Lhs[0]) != "syncPid" {
+					return true
+				}
+				if fl, ok := as.Rhs[0].(*ast.FuncLit); ok {
+					emitC("syncPidPaths", fl.Body.List)
+					found = true
+				}
+				return true
+			})
+			if !found {
+				fail("syncPid closure not found in handleExecve")
+			}
+		} else {
+			fail("handleExecve not found")
+		}
 		emit("hostExecvePaths", "Execve")
 		emit("execveSyncKillPaths", "execveSyncKill")
 		emit("waitForDonePaths", "waitForDone")
